@@ -88,10 +88,10 @@ fn main() {
 		}
 		// (3) default configuration: long flat streams with deviations (periods of the default config are 10-50)
 		let sys = IndSys::new(&format!("{name}/deviation/default"), indicator_configs(Some(name), false), vec![ks[1], ks[5]], vec![ks[1], ks[2], ks[3], ks[0], ks[5]], oracle, true);
-		h.go(&sys, &Limits::deviation(if thorough { 2 } else { 1 }, if thorough { 160 } else { 90 }).wall_secs(600), true);
+		h.go(&sys, &Limits::deviation(if thorough { 2 } else { 1 }, if thorough { 120 } else { 90 }).wall_secs(600), true);
 		tally!(sys);
 		let sys2 = IndSys::new(&format!("{name}/deviation-2/default"), indicator_configs(Some(name), false), vec![ks[1]], vec![ks[1], ks[2], ks[3]], oracle, true);
-		h.go(&sys2, &Limits::deviation(if thorough { 3 } else { 2 }, if thorough { 60 } else { 36 }).wall_secs(600), true);
+		h.go(&sys2, &Limits::deviation(if thorough { 3 } else { 2 }, if thorough { 48 } else { 36 }).wall_secs(600), true);
 		tally!(sys2);
 		not_exercised.extend(sys.unexercised().into_iter().map(|s| format!("[deviation] {s}")));
 		// (4) tiny units: the same candles scaled by 2^-60 (guards written as `> 0` / `!= 0` must not become thresholds)
@@ -130,7 +130,7 @@ fn main() {
 		// (consecutive-peak counters, pivot rules, position counters) with at most one deviation
 		{
 			let sys = IndSys::new(&format!("{name}/deviation/zigzag-trend"), indicator_configs_small3(name), vec![ks[1]], vec![ks[1], ks[2]], oracle, true).with_zigzag();
-			h.go(&sys, &Limits::deviation(if thorough { 1 } else { 0 }, if thorough { 1200 } else { 640 }).wall_secs(600), true);
+			h.go(&sys, &Limits::deviation(if thorough { 1 } else { 0 }, if thorough { 900 } else { 640 }).wall_secs(600), true);
 			tally!(sys);
 		}
 	}
